@@ -637,9 +637,9 @@ func (m *RpcServer) ControlEnvironment(cxt context.Context, req *pb.ControlEnvir
 			WithField("level", infologger.IL_Ops).
 			WithError(err).
 			Errorf("transition '%s' failed, transitioning into ERROR.", req.GetType().String())
-		err = env.TryTransition(environment.NewGoErrorTransition(m.state.taskman))
-		if err != nil {
-			log.WithField("partition", env.Id()).Warnf("could not complete requested GO_ERROR transition, forcing move to ERROR: %s", err.Error())
+		// keep err: the caller must learn that the requested transition failed, whatever becomes of GO_ERROR
+		if goErr := env.TryTransition(environment.NewGoErrorTransition(m.state.taskman)); goErr != nil {
+			log.WithField("partition", env.Id()).Warnf("could not complete requested GO_ERROR transition, forcing move to ERROR: %s", goErr.Error())
 			env.Sm.SetState("ERROR")
 		}
 	}
